@@ -112,9 +112,31 @@ func (o c17Op) enc() string {
 	return "bad"
 }
 
-// an answer that only says the sandbox ran out of disk (other builders share it): not an observation
+// an I/O error answer (the sandbox's disk is shared and runs full at times; the code ignores the
+// error of its write-back, so a full disk shows as an unparsable users.json later): the run is
+// repeated, with a pause; an error that persists through all repetitions is reported
 func c17EnvError(res string) bool {
-	return strings.HasPrefix(res, "err:") && strings.Contains(res, "no_space_left_on_device")
+	return strings.HasPrefix(res, "err:")
+}
+
+// the shared sandbox disk is full at times: an error that says so is waited out
+func c17Transient(err error) bool {
+	return err != nil && strings.Contains(err.Error(), "no space left on device")
+}
+
+func c17Retry(f func() error) error {
+	var err error
+	for try := 0; try < 7; try++ {
+		if err = f(); !c17Transient(err) {
+			return err
+		}
+		c17RetryPause(try)
+	}
+	return err
+}
+
+func c17RetryPause(try int) {
+	time.Sleep(time.Duration(200*(try+1)*(try+1)) * time.Millisecond)
 }
 
 func c17Err(err error) string {
@@ -227,7 +249,16 @@ func c17WriteStore(dir string, init []c17Acct) error {
 
 // c17New builds the service stack exactly as auth.New does for --iam-dir (NewInternal, then NewCache
 // unless the cache is disabled); `gated` interposes the yield points of c17conc.go between the two.
-func c17New(dir string, mode c17Mode, init []c17Acct, gated bool) (*c17Sys, error) {
+func c17New(dir string, mode c17Mode, init []c17Acct, gated bool) (s *c17Sys, err error) {
+	err = c17Retry(func() error {
+		os.RemoveAll(dir)
+		s, err = c17NewOnce(dir, mode, init, gated)
+		return err
+	})
+	return s, err
+}
+
+func c17NewOnce(dir string, mode c17Mode, init []c17Acct, gated bool) (*c17Sys, error) {
 	if err := os.MkdirAll(dir, 0o755); err != nil {
 		return nil, err
 	}
@@ -456,7 +487,8 @@ func c17Corpus(v c17Variant) []c17Hist {
 
 type c17Run struct {
 	Results []string
-	Unsafe  bool // the timing assumption did not hold (machine too slow) or the disk was full: rerun
+	Unsafe  bool // the timing assumption did not hold (machine too slow): rerun
+	IOErr   bool // some call answered an I/O error: rerun; reported if it persists
 	Left    []string
 }
 
@@ -486,7 +518,7 @@ func c17RunSeq(dir string, h c17Hist) (c17Run, error) {
 		}
 		x := o.apply(s.svc)
 		if c17EnvError(x) {
-			run.Unsafe = true
+			run.IOErr = true
 		}
 		run.Results = append(run.Results, x)
 	}
@@ -608,14 +640,91 @@ type c17Evidence struct {
 //  4. without a schedule (free-running goroutines): A = a call on that key overlapping the last
 //     acknowledged change B.
 func c17Classify(d *lib.Driver, init []c17Acct, recs []c17Rec, ev c17Evidence) (sig, what string) {
+	return c17ClassifyWith(d.Ask, init, recs, ev)
+}
+
+type c17ClassifyItem struct {
+	Init []c17Acct
+	Recs []c17Rec
+	Ev   c17Evidence
+}
+
+type c17AskReq struct {
+	lines []string
+	resp  chan []string
+}
+
+// c17ClassifyAll classifies many rejected histories with few driver processes: the questions of
+// all of them are asked round by round in one batch (scripts begin with `iam reset`, `iam lin` is
+// stateless: concatenation is safe).
+func c17ClassifyAll(d *lib.Driver, items []c17ClassifyItem) [][2]string {
+	out := make([][2]string, len(items))
+	reqs := make(chan c17AskReq)
+	done := make(chan struct{})
+	for i := range items {
+		go func(i int) {
+			ask := func(lines []string) ([]string, error) {
+				r := c17AskReq{lines, make(chan []string, 1)}
+				reqs <- r
+				ans := <-r.resp
+				if ans == nil {
+					return nil, fmt.Errorf("driver failed")
+				}
+				return ans, nil
+			}
+			sig, what := c17ClassifyWith(ask, items[i].Init, items[i].Recs, items[i].Ev)
+			out[i] = [2]string{sig, what}
+			done <- struct{}{}
+		}(i)
+	}
+	active := len(items)
+	for active > 0 {
+		var batch []c17AskReq
+		for len(batch) < active {
+			select {
+			case r := <-reqs:
+				batch = append(batch, r)
+			case <-done:
+				active--
+			}
+		}
+		if len(batch) == 0 {
+			continue
+		}
+		var lines []string
+		for _, b := range batch {
+			lines = append(lines, b.lines...)
+		}
+		ans, err := d.Ask(lines)
+		at := 0
+		for _, b := range batch {
+			if err != nil {
+				b.resp <- nil
+			} else {
+				b.resp <- ans[at : at+len(b.lines)]
+			}
+			at += len(b.lines)
+		}
+	}
+	return out
+}
+
+func c17ClassifyWith(ask func([]string) ([]string, error), init []c17Acct, recs []c17Rec, ev c17Evidence) (sig, what string) {
 	recs = append([]c17Rec{}, recs...)
 	sort.SliceStable(recs, func(i, j int) bool { return recs[i].Ret < recs[j].Ret })
 	bad := -1
-	for n := range recs {
-		out, err := d.Ask([]string{c17LinLine(init, c17Upto(recs, recs[n].Ret))})
-		if err != nil || out[0] != "ok" {
-			bad = n
-			break
+	{
+		// all prefixes in one question
+		var q []string
+		for n := range recs {
+			q = append(q, c17LinLine(init, c17Upto(recs, recs[n].Ret)))
+		}
+		out, err := ask(q)
+		for n := range recs {
+			if err != nil || out[n] != "ok" {
+				bad = n
+				break
+			}
 		}
 	}
 	if bad < 0 {
@@ -629,10 +738,14 @@ func c17Classify(d *lib.Driver, init []c17Acct, recs []c17Rec, ev c17Evidence) (
 	// (2) counterfactual: the same script on the model with the uid/gid copy repaired
 	if ev.Script != nil && !ev.V.CopyIds && !ev.V.Invalidate {
 		script := append([]string{}, ev.Script...)
-		p := strings.Fields(script[0])
-		p[3] = "1"
-		script[0] = strings.Join(p, " ")
-		if out, err := d.Ask(script); err == nil {
+		for i, l := range script {
+			if strings.HasPrefix(l, "iam reset ") {
+				p := strings.Fields(l)
+				p[3] = "1"
+				script[i] = strings.Join(p, " ")
+			}
+		}
+		if out, err := ask(script); err == nil {
 			alt := make([]c17Rec, len(recs))
 			ok := true
 			for i, r := range recs {
@@ -645,7 +758,7 @@ func c17Classify(d *lib.Driver, init []c17Acct, recs []c17Rec, ev c17Evidence) (
 			}
 			if ok {
 				// judged up to the same instant: later trouble of the same run is a different matter
-				if v, err := d.Ask([]string{c17LinLine(init, c17Upto(alt, f.Ret))}); err == nil && v[0] == "ok" {
+				if v, err := ask([]string{c17LinLine(init, c17Upto(alt, f.Ret))}); err == nil && v[0] == "ok" {
 					return "iam:create:cache-entry-drops-uid-gid", what + "; with UserID/GroupID copied into the entry written by CreateAccount the same schedule is admissible"
 				}
 			}
@@ -809,8 +922,11 @@ func c17Seq(a lib.Args, res *lib.Result) error {
 			defer func() { <-sem }()
 			for try := 0; try < 4; try++ {
 				runs[i], errs[i] = c17RunSeq(filepath.Join(a.Work, "c17-seq", strconv.Itoa(i)), hists[i])
-				if errs[i] != nil || !runs[i].Unsafe {
+				if errs[i] != nil || !(runs[i].Unsafe || runs[i].IOErr) {
 					return
+				}
+				if runs[i].IOErr {
+					c17RetryPause(try)
 				}
 			}
 		}(i)
@@ -827,12 +943,15 @@ func c17Seq(a lib.Args, res *lib.Result) error {
 	for i, h := range hists {
 		at[i] = len(lines)
 		lines = append(lines, c17ModelLines(v, h.Mode, h.Init, h.Ops)...)
+		lines = append(lines, "iam quiet")
 		lines = append(lines, c17LinLine(h.Init, c17SeqRecs(h.Ops, runs[i].Results)))
 	}
 	out, err := a.Driver.Ask(lines)
 	if err != nil {
 		return err
 	}
+	var pending []c17ClassifyItem
+	var pendingFail []lib.Failure
 	for i, h := range hists {
 		run := runs[i]
 		canon, _ := json.Marshal(h)
@@ -853,7 +972,17 @@ func c17Seq(a lib.Args, res *lib.Result) error {
 		}
 		nl := len(c17ModelLines(v, h.Mode, h.Init, h.Ops))
 		mres := c17ModelAnswers(h.Mode, h.Ops, out[at[i]:at[i]+nl])
-		verdict := out[at[i]+nl]
+		quiet := out[at[i]+nl] == "1"
+		verdict := out[at[i]+nl+1]
+		if quiet {
+			res.Histogram["seq:side-condition-of-partial-theorems:holds"]++
+		} else {
+			res.Histogram["seq:side-condition-of-partial-theorems:violated"]++
+		}
+		if quiet && verdict != "ok" {
+			res.Fail(lib.Failure{Kind: "property", Signature: "iam:violation-on-quiet-schedule", What: "the history satisfies the side condition of Props.C17.seq_refines_map_partial (quietRunB) and is still rejected by the oracle", Input: h,
+				Impl: strings.Join(run.Results, " "), Model: strings.Join(mres, " ")})
+		}
 		for j, o := range h.Ops {
 			if o.Kind != "adv" {
 				res.Histogram["seq:answer:"+o.Kind+":"+strings.SplitN(run.Results[j], "=", 2)[0]]++
@@ -871,8 +1000,8 @@ func c17Seq(a lib.Args, res *lib.Result) error {
 					ri++
 				}
 			}
-			sig, what := c17Classify(a.Driver, h.Init, recs, c17Evidence{V: v, Script: script})
-			res.Fail(lib.Failure{Kind: "property", Signature: sig, What: "the observed sequential history is not a history of the plain account map: " + what, Input: h,
+			pending = append(pending, c17ClassifyItem{h.Init, recs, c17Evidence{V: v, Script: script}})
+			pendingFail = append(pendingFail, lib.Failure{Kind: "property", What: "the observed sequential history is not a history of the plain account map: ", Input: h,
 				Impl: strings.Join(run.Results, " "), Model: strings.Join(mres, " ")})
 		}
 		for j, o := range h.Ops {
@@ -882,6 +1011,11 @@ func c17Seq(a lib.Args, res *lib.Result) error {
 				break
 			}
 		}
+	}
+	for i, c := range c17ClassifyAll(a.Driver, pending) {
+		f := pendingFail[i]
+		f.Signature, f.What = c[0], f.What+c[1]
+		res.Fail(f)
 	}
 	os.RemoveAll(filepath.Join(a.Work, "c17-seq"))
 	return nil
